@@ -185,6 +185,16 @@ def run(tier):
     for body, want in execs[:2]:
         for how in ("full", "closed"):
             add(body, True, [], "-r", "FILE", {"want": want, "stdout_to": how})
+    # other SPELLINGS of the same command line: long options, '=' forms, unique abbreviations, bundled short options, '--' before FILE
+    SPELL = [("-p", [], ["--print"]), ("-p", ["-n"], ["-np"]), ("-p", ["-n"], ["--nasm", "--print"]), ("-p", ["-t"], ["-tp"]), ("-p", [], ["-p", "--"]),
+             ("-P", [], ["--printfile", "{OUT}"]), ("-P", [], ["--printfile={OUT}"]), ("-P", [], ["--printf", "{OUT}"]), ("-P", [], ["-P{OUT}"]),
+             ("-o", [], ["--object", "{OBJ}"]), ("-o", [], ["--object={OBJ}"]), ("-o", [], ["--obj", "{OBJ}"]), ("-o", [], ["-o{OBJ}"]),
+             ("-pc", [], ["--chunk", "{C}", "-p"]), ("-pc", [], ["--chunk={C}", "--print"]), ("-pc", [], ["-pc{C}"]), ("-pc", [], ["-pc", "{C}"]), ("-pc", [], ["--chu", "{C}", "-p"]), ("-pc", [], ["-c{C}", "-p"]),
+             ("-b", [], ["--breaks", "{C}"]), ("-b", [], ["--breaks={C}"]), ("-b", [], ["-b{C}"]), ("-b", [], ["--brea", "{C}"]), ("-pb", [], ["-pb{C}"]), ("-pb", [], ["--print", "--breaks={C}"]),
+             ("-p", ["--strict-mov-imm"], ["--strict-m", "-p"]), ("-p", ["--nasm-sib-no-base"], ["--nasm-sib-n", "-p"]), ("-p", ["-s"], ["--smart", "-p"]), ("-p", ["-t"], ["--strict", "--print"])]
+    for prog, valid in [pv for pv in progs if pv[0][:len(PROBE)] == PROBE][:3] + progs[:3]:
+        for (ok, fl, argvv) in SPELL:
+            add(prog, valid, fl, ok, rnd.choice(["FILE", "stdin"]), {"c": rnd.choice([4, 8, 16]), "argv_override": argvv})
     # TWO outputs requested at once (a printed one and a file): both must be right, and if either cannot be produced the status is non-zero
     for prog, valid in progs[:8]:
         for ok in ("-pP", "-pO", "-bP", "-pbO"):
@@ -291,6 +301,13 @@ def run(tier):
             args += [ok]
         elif ok == "-usage":
             args += ["-p"] + j["bad_args"]
+        if j.get("argv_override"):
+            # another spelling of the same command line (the flags of j["flags"] are part of the override)
+            if ok in ("-P", "-c"):
+                outfile = os.path.join(d, "out.raw")
+            elif ok == "-o":
+                outfile = os.path.join(d, "obj.bin")
+            args = [asmline] + [a.replace("{OUT}", os.path.join(d, "out.raw")).replace("{OBJ}", os.path.join(d, "obj")).replace("{C}", str(j["c"])) for a in j["argv_override"]]
         if common._hangs[0] >= common.HANG_LIMIT:  # circuit breaker (vlib/common.py): the hangs seen so far are violations already
             return {"rc": "skipped", "stdout": b"", "stderr": b"", "file": None, "argv": args}
         try:
@@ -544,7 +561,7 @@ def run(tier):
                 stats["valgrind_runs"] += 1
                 v.distinct(("vg", how, LEN))
     v.cov["rule"] = ("asmline (tools/asmline.c built with ASan+UBSan from the working tree) vs the library driven through the corresponding documented option calls: seeded programs (valid, with option-sensitive probe lines, "
-                     "with one invalid line, executable ones returning values up to 2^64-1, empty / blank / comment-only programs, programs of 100-3000 (thorough: 6000) lines) x every mode flag and non-conflicting flag pairs x outputs {-p, -P file, -P /dev/stdout, -o, -c N (binary), -p -c N, -b N, -p -b N, a printed and a file output together (-p -P, -p -o, -b -P, -p -b -o), -r, -r=0/2/3/100, --return[=5], unwritable -P, printed outputs to a full / closed standard output; 21 spellings of the number given to -c / -b (huge, fractional, trailing characters, hex, signs, blanks); chunk sizes 4..10^6; options before or after FILE} x {FILE, stdin, stdin delivered in pieces of 1 / 7 / 40 / 4096 bytes}. "
+                     "with one invalid line, executable ones returning values up to 2^64-1, empty / blank / comment-only programs, programs of 100-3000 (thorough: 6000) lines) x every mode flag and non-conflicting flag pairs x outputs {-p, -P file, -P /dev/stdout, -o, -c N (binary), -p -c N, -b N, -p -b N, a printed and a file output together (-p -P, -p -o, -b -P, -p -b -o), -r, -r=0/2/3/100, --return[=5], unwritable -P, printed outputs to a full / closed standard output; 21 spellings of the number given to -c / -b (huge, fractional, trailing characters, hex, signs, blanks); chunk sizes 4..10^6; options before or after FILE, 29 other spellings of the command line (long options, '=' forms, unique abbreviations, bundled short options, '--')} x {FILE, stdin, stdin delivered in pieces of 1 / 7 / 40 / 4096 bytes}. "
                      "-r / -r=LEN / --return=LEN / --rand additionally under valgrind memcheck with programs that touch the last element of all six arrays. Binary outputs must equal the library bytes, -p the hex rows per instruction (chunk rows with -c), -b the library count, -r the value the code returns; exit status 0 iff assembly and output succeeded")
     v.cov["exhaustive"] = False
     v.cov.update(stats)
